@@ -14,7 +14,7 @@ Definition R_t_sig : { R | aexec prog pparam true false sess_fuel Skip server_se
 Proof. eexists. vm_compute. reflexivity. Defined.
 Definition R_of (showtb : bool) := if showtb then proj1_sig R_t_sig else proj1_sig R_f_sig.
 
-Definition getf (r : outcome * astate) : fin := fst (fst (snd r)).
+Definition getf (r : outcome * astate) : fin := fst (fst (fst (snd r))).
 
 Definition all_results (P : outcome * astate -> bool) (showtb : bool) : bool :=
   match R_of showtb with Some R => forallb P R | None => false end.
